@@ -37,6 +37,8 @@ type GenOpts struct {
 	Strings    bool
 	Funcs      int
 	SmallInts  bool // also use int8/uint8/uint32 locals
+	Lib        bool // calls of the bundled string library (strings.*, strconv.Itoa): GoStrLib.tla
+	Packages   bool // move a closed set of declarations into an imported package (mg_split.go)
 	Ifaces     bool // append the interface feature block (mg_gen3.go)
 	NamedTypes bool // append the named / alias type feature block
 	Panics     bool // allow statements that may panic at run time (index out of range, nil map write ...)
@@ -504,6 +506,8 @@ func (g *Gen) boolExpr(depth int) *E {
 		if e := g.fieldExpr(TBool, depth); e != nil {
 			return e
 		}
+	case x < 96 && g.o.Lib:
+		return &E{K: "lib", Ty: TBool, Fn: "strings.Contains", Args: []*E{g.expr(TString, depth-1), g.expr(TString, 0)}}
 	case x < 96:
 		// nil comparisons of nillable variables
 		for _, v := range g.visible() {
@@ -554,6 +558,8 @@ func (g *Gen) strExpr(depth int) *E {
 		if c := g.callReturning(TString, depth); c != nil {
 			return c
 		}
+	case g.o.Lib:
+		return g.libStrExpr(depth)
 	}
 	return g.expr(TString, 0)
 }
@@ -927,7 +933,7 @@ func hasStringSource(e *E) bool {
 		return false
 	}
 	switch e.K {
-	case "var", "field", "call", "callv", "mcall", "index", "mapget", "slice":
+	case "var", "field", "call", "callv", "mcall", "index", "mapget", "slice", "lib":
 		return true
 	case "len", "str", "int", "bool":
 		return false
@@ -1265,6 +1271,9 @@ func (g *Gen) Program(id string) *Prog {
 		insert(g.addNamedTypesDemo())
 	}
 	g.prog.Funcs = append(g.prog.Funcs, &Func{Name: "Main", Body: body})
+	if g.o.Packages {
+		g.prog.Split = g.prog.chooseSplit(g.r)
+	}
 	return g.prog
 }
 
